@@ -234,6 +234,17 @@ def report(ctx, tk, rule, funcs, what_prefix=""):
         else:
             ctx.holds(rule + "/W0a", f, "every local name is bound on some path before it is read", key="locals", engine="W0")
         bad = check_calls(ctx, tk, f)
+        from .triage import CALL_EDGES
+        kept = []
+        for ct, g, why in bad:
+            reason = CALL_EDGES.get((f.qual, g.qual))
+            if reason:
+                tag = "W0b %s -> %s suppressed: %s" % (f.qual, g.qual, reason)
+                if tag not in ctx.suppressed:
+                    ctx.suppressed.append(tag)
+            else:
+                kept.append((ct, g, why))
+        bad = kept
         if bad:
             for ct, g, why in bad[:3]:
                 ctx.violated(rule + "/W0b", f, "every resolved call fits its callee's signature", why + " (TypeError for every input)",
@@ -265,6 +276,8 @@ def report_wrappers(ctx, tk, rule):
     bad = check_wrapper_calls(ctx, tk)
     seen = set()
     for g, w, c in bad:
+        if g.qual in seen:
+            continue
         ctx.violated(rule + "/W0b", g, "a decorated function accepts the call its wrapper makes",
                      "%s calls `%s` but %s%s cannot take these arguments (TypeError for every input)" % (
                          w.qual, c, g.qual, ast.unparse(g.node.args).join("()")), node=g.node, key="wrapped-arity", engine="W0")
